@@ -27,7 +27,7 @@ META = {
         "interface.log",
     ],
     "floors": {
-        "quick": {"evaluations": 8000, "distinct_nontrivial": 1500, "tables": {"arrayop": 4000, "vectorop": 3000, "form/autoray": 1500, "form/function": 1500, "feature/different-sectors": 500}},
+        "quick": {"evaluations": 8000, "distinct_nontrivial": 1500, "tables": {"arrayop": 4000, "vectorop": 3000, "form/autoray": 1500, "form/function": 1500, "feature/different-sectors": 500, "feature/mixed-dtype-blocks": 200}},
         "thorough": {"evaluations": 300000, "distinct_nontrivial": 40000, "tables": {"arrayop": 150000, "vectorop": 100000}},
     },
     "wall": {"quick": 100, "thorough": 1500},
@@ -118,6 +118,14 @@ def case_array(ctx, rng):
         x = gen.make_array(sr, rng, sym, idx, values=vals)
     else:
         x = gen.rand_array(sr, rng, sym, maxnd=4 if op in ("transpose", "dagger") else 3, values=vals, allow0=op in ("scalar", "neg", "sum", "norm"))
+    if op in ("transpose", "conj", "dagger", "neg", "scalar", "sum", "norm", "abs", "multiply_diagonal") and x.ndim and rng.random() < 0.12:
+        # blocks of mixed dtype inside one array: real + complex with different stored sectors
+        kind_ = "static" if type(x).static_symmetry else "generic_str"
+        y_ = gen.make_array(sr, rng, sym, x.indices, charge=x.charge, values=gen.Values(rng, "int", "complex128" if str(embed(x).dtype).startswith("float") else "float64"), kind=kind_, sparsity=0.5)
+        o_ = ctx.call(lambda: x + y_)
+        if o_.ok and len({str(np.asarray(b).dtype) for b in o_.value.blocks.values()}) > 1:
+            x = o_.value
+            ctx.count("feature", "mixed-dtype-blocks")
     d = embed(x)
     wit = {"x": describe(x, True)}
     sig = struct_sig(x)
